@@ -108,6 +108,33 @@ CLAIMS = {
              "segment, split lines, the limit and 417), CRLF termination, blank runs of any kind and the format!-built relays (PART, KICK, 301) are decided per run on the real server (L2).",
         design_ref="5 (C13)",
         note="Partial at proof level: framing and CRLF are checked by oracles, not proved; the python grammar oracle is part of the check's trusted base."),
+    "C20": dict(
+        technique="Coq proof (the validation model accepts exactly the conjunction the statement lists; shape of a well-formed hash; configured channels and default user modes in the state model) + differential validation of generated configuration files and command lines, and start-up / -g / plain-vs-TLS runs of the real binary",
+        text="Theorems (props/C20.v): config_accept holds iff the TLS certificate and key options come together, the effective (command-line overridden) server name contains a dot, every password "
+             "hash is 86 characters of canonical unpadded base64 (64 bytes), every operator and user name and nick passes the name validator (nicks at most 200 bytes) and every channel name the "
+             "channel validator; the command line wins over the file; predefined channels exist from the start with their settings (with C16); a new user gets exactly the default user modes. "
+             "MainConfig::new is tied to that model on every run over generated files (each validated field valid/invalid/absent) and an independent python statement of the rules; exit status, "
+             "welcome burst, max_joins, -n, the -g hash round trip through a configured server and the plain-vs-TLS transcript equality are observed on the real binary (L2).",
+        design_ref="5 (C20)",
+        note="Partial at proof level: argon2, TOML/serde, process exit and TLS are outside the model; they are exercised, not proved."),
+    "C17": dict(
+        technique="Coq proof over a timed model of the ping waker / pong timer (induction over timed event lists) + real-time scenarios against the real binary whose observed timelines are run through the extracted model",
+        text="Theorems (props/C17.v): PING is answered with a PONG carrying the same token; in the timed model the first PING that finds no timer running and gets no PONG before its deadline closes the "
+             "connection exactly pong_timeout later - whatever else is sent meanwhile and also when further PINGs fall into the wait (pong_timeout >= ping_timeout); a peer that answers every PING (any token) "
+             "in less than pong_timeout is never closed, for every horizon; the keep-alive closes only at a PING time plus pong_timeout; other traffic neither resets nor delays the timer; the timeout is "
+             "handled in every reachable world by the same teardown as every other ending (C06) and preserves the invariant. The timers themselves are tokio's: the model is tied on every run by 27+ real-time "
+             "scenarios (3-7 timeout configurations x 9 response patterns) whose observed PING/PONG times are fed to ka_run and whose disconnection must agree within the stated slack.",
+        design_ref="5 (C17)",
+        note="Partial at proof level: real time, tokio sleep/interval/timeout and task scheduling are outside the model; the scenarios sample them."),
+    "C18": dict(
+        technique="Coq proof (the invariant over every interleaving of whole commands; concatenation lemma for run; two-phase model of the one handler with separate check and update) + source scan of lock acquisitions per handler + burst scenarios on the real multi-threaded binary",
+        text="Theorems (props/C18.v): every interleaving of whole commands of any number of connections runs to the end and preserves the invariant, so of any number of claims to a nickname at most one "
+             "connection owns it; the unlocked NICK look-up followed by the commit under the write lock is safe for EVERY state produced in between (inert, or registration of a nick free at commit time); "
+             "whoever is first in the serial order creates a channel and is its founder, nobody after gets 'create'; a JOIN is accepted only below the +l limit in force; what a connection receives is "
+             "never reordered across commands. That each handler is one critical section is read off the source and re-scanned on every run (inventory/lock_shape.json); real schedules are exercised "
+             "by bursts of 24 simultaneous claims / first joins / limited joins, pipelined numbered messages and liveness probes under lock contention (L2).",
+        design_ref="5 (C18)",
+        note="Partial at proof level: real schedules, RwLock fairness, the mpsc FIFO and flush order are the runtime's; the theorems are about the section structure, the bursts sample the runtime."),
     "C01": dict(
         technique="Coq proof over the handler model (per-target delivery = duplicate-free audience list minus the sender, via Forall2/NoDup) + differential traces and an audience oracle on the implementation's own state",
         text="Theorems (props/C01.v) about the Gallina model of process_privmsg_notice, for ALL shared states, connections, target lists and texts: an accepted channel target queues "
